@@ -172,6 +172,10 @@ impl<'a> WireFormat<'a> for Name<'a> {
         // avoid invalid data caused oom
         let mut name_size = 0usize;
 
+        // a name has at most MAX_NAME_LENGTH / 2 labels, so a longer chain of compression
+        // pointers can only be an attempt to make every name cost a walk over the whole message
+        let mut pointer_jumps = 0usize;
+
         loop {
             #[cfg(simple_dns_verif)]
             crate::dns::verif::step();
@@ -205,6 +209,11 @@ impl<'a> WireFormat<'a> for Name<'a> {
                         data[pointer_position..pointer_position + 2].try_into()?,
                     ) & !POINTER_MASK_U16) as usize;
                     if pointer >= pointer_position {
+                        return Err(crate::SimpleDnsError::InvalidDnsPacket);
+                    }
+
+                    pointer_jumps += 1;
+                    if pointer_jumps > MAX_NAME_LENGTH / 2 {
                         return Err(crate::SimpleDnsError::InvalidDnsPacket);
                     }
                     pointer_position = pointer;
